@@ -264,6 +264,11 @@ def exercise(grid):
   import jax.numpy as jnp
   from dinosaur import spherical_harmonic as sh
   ms, ns = grid.modal_shape, grid.nodal_shape
+  # first use in single-precision mode (jax_enable_x64 switched off), as a float32 model run would do, before the double-precision clauses
+  import jax
+  with jax.enable_x64(False):
+    z32 = jnp.ones(ms, jnp.float32); n32 = jnp.ones(ns, jnp.float32)
+    grid.to_nodal(z32); grid.to_modal(n32); grid.integrate(n32); grid.laplacian(z32); grid.clip_wavenumbers(z32, n=2)
   for dt in (np.float64, np.float32):
     z = jnp.ones((2,) + ms, dt); zn = jnp.ones((2,) + ns, dt)
     grid.clip_wavenumbers(z, n=3); grid.clip_wavenumbers(z[0], n=2)
